@@ -263,6 +263,7 @@ func c06Case(c *core.Ctx, rng *rand.Rand, dir string, idx int, a *apiTrack, st *
 		time.Sleep(time.Duration(1000+rng.Intn(3000)) * time.Microsecond) // consumer modes that do not receive park the reader
 	}
 	// racing API goroutines
+	var racingRemoveErrClosed atomic.Bool
 	var apiWG sync.WaitGroup
 	stopAPI := make(chan struct{})
 	if point == "racing-api" || rng.Intn(3) == 0 {
@@ -283,7 +284,11 @@ func c06Case(c *core.Ctx, rng *rand.Rand, dir string, idx int, a *apiTrack, st *
 					case 0:
 						a.call(func() { w.Add(d) })
 					case 1:
-						a.call(func() { w.Remove(d) })
+						a.call(func() {
+							if err := w.Remove(d); errors.Is(err, fsnotify.ErrClosed) {
+								racingRemoveErrClosed.Store(true)
+							}
+						})
 					default:
 						a.call(func() { w.WatchList() })
 					}
@@ -394,6 +399,9 @@ func c06Case(c *core.Ctx, rng *rand.Rand, dir string, idx int, a *apiTrack, st *
 	}
 	iwg.Wait()
 	apiWG.Wait()
+	if racingRemoveErrClosed.Load() {
+		c.Violate("remove-returned-errclosed", fmt.Sprintf("[%s] a Remove call racing Close returned ErrClosed; Remove returns nil once the Watcher is closed (and never ErrClosed before)", params), nil)
+	}
 	mutDone.Wait()
 	if idx < 2 {
 		c.Sample(map[string]interface{}{"params": params, "events_drained_after_close": atomic.LoadInt64(&afterClose)})
